@@ -894,3 +894,123 @@ pub fn grow_beyond_4gib() -> Result<u64, Violation> {
     }
     Ok(steps)
 }
+
+/// C05: a reader that *claims* an enormous length (the bytes of a small valid file followed
+/// by a formula) - byte strings far too long to hold in memory are byte strings too. Opening
+/// (both modes) and reading must return Ok or Err, without panic, within the CPU limit of the
+/// probe process and with a peak heap that does not scale with the claimed length.
+/// `probe` = index into the list of (version, length) pairs; run alone in a child process.
+pub fn huge_length_list() -> Vec<(u8, u64, &'static str)> {
+    let mut v = Vec::new();
+    for version in [3u8, 4u8] {
+        let sl: u64 = if version == 3 { 512 } else { 4096 };
+        let max_ok = (0xFFFF_FFFAu64 + 1) * sl + sl; // header + MAXREGSECT+1 sectors
+        for (len, what) in [
+            ((1u64 << 32) - sl, "just below 2^32"),
+            (1u64 << 32, "2^32"),
+            ((1u64 << 32) + sl + 7, "2^32 + one sector + 7"),
+            (max_ok - sl, "one sector below the largest addressable file"),
+            (max_ok, "largest addressable file"),
+            (max_ok + sl, "one sector more than addressable"),
+            (1u64 << 52, "2^52"),
+            ((1u64 << 63) - 1, "2^63 - 1"),
+            (1u64 << 63, "2^63"),
+            (u64::MAX - (sl - 1), "2^64 - sector"),
+            (u64::MAX, "2^64 - 1"),
+        ] {
+            v.push((version, len, what));
+        }
+    }
+    v
+}
+
+pub fn huge_length_probe(index: usize) -> Result<String, Fail> {
+    use std::io::{Read, Seek, SeekFrom};
+    let list = huge_length_list();
+    let (version, len, what) = *list.get(index).ok_or_else(|| Fail::new("harness|probe", "no such probe"))?;
+    // a small valid file: a storage, a mini stream, a regular stream
+    let mut m = Model::new();
+    if let Kind::Storage { children, .. } = &mut m.root.kind {
+        children.push(Node { name: "a".into(), state: 0, kind: Kind::Stream { data: pattern(1, 0, 100) } });
+        children.push(Node { name: "bb".into(), state: 0, kind: Kind::Stream { data: pattern(2, 0, 5000) } });
+    }
+    let (img, _) = synthesize(&m, version, &[], 0);
+    let prefix = std::sync::Arc::new(img);
+    let base = crate::memtrack::begin();
+    let mut outcomes = Vec::new();
+    for strict in [false, true] {
+        let io = SparseIo { prefix: prefix.clone(), len, pos: 0 };
+        let opened = guard("open", || open_options(None, strict).open_with(io))?;
+        match opened {
+            Err(e) => outcomes.push(format!("{}: Err({})", if strict { "strict" } else { "permissive" }, e.kind())),
+            Ok(mut c) => {
+                let r = guard("read_script", || -> std::io::Result<usize> {
+                    let mut n = 0usize;
+                    let paths: Vec<std::path::PathBuf> = c.walk().filter(|e| e.is_stream()).map(|e| e.path().to_path_buf()).collect();
+                    for p in paths {
+                        let mut s = c.open_stream(&p)?;
+                        let mut buf = Vec::new();
+                        s.read_to_end(&mut buf)?;
+                        n += buf.len();
+                        let _ = s.seek(SeekFrom::End(0))?;
+                        let _ = s.seek(SeekFrom::Start(u64::MAX));
+                    }
+                    let _ = c.entry("/a")?;
+                    Ok(n)
+                })?;
+                outcomes.push(format!("{}: Ok, read {:?}", if strict { "strict" } else { "permissive" }, r.map_err(|e| e.kind())));
+            }
+        }
+    }
+    let peak = crate::memtrack::peak_since(base);
+    if peak > 64 << 20 {
+        return Err(Fail::new("memory|huge_length", format!("V{} file of claimed length {} ({}): peak heap {} bytes for a {}-byte valid prefix", version, len, what, peak, prefix.len())));
+    }
+    Ok(format!("V{} length {} ({}): {}; peak heap {} bytes", version, len, what, outcomes.join("; "), peak))
+}
+
+/// Runs every huge-length probe in its own child process (CPU and address-space limits).
+pub fn huge_length_inputs() -> Result<Vec<String>, Violation> {
+    use std::os::unix::process::CommandExt;
+    use std::os::unix::process::ExitStatusExt;
+    let mut done = Vec::new();
+    for (i, (version, len, what)) in huge_length_list().into_iter().enumerate() {
+        let label = format!("reader claiming {} bytes ({}), V{} prefix", len, what, version);
+        let case = serde_json::json!({"scenario": "huge_length_inputs", "probe": i, "note": label});
+        let mut cmd = std::process::Command::new(std::env::current_exe().unwrap());
+        cmd.arg("probe").arg("huge-length").arg(i.to_string()).stdout(std::process::Stdio::piped()).stderr(std::process::Stdio::null());
+        unsafe {
+            cmd.pre_exec(|| {
+                let cpu = libc::rlimit { rlim_cur: 60, rlim_max: 65 };
+                libc::setrlimit(libc::RLIMIT_CPU, &cpu);
+                let mem = libc::rlimit { rlim_cur: 6 << 30, rlim_max: 6 << 30 };
+                libc::setrlimit(libc::RLIMIT_AS, &mem);
+                Ok(())
+            });
+        }
+        let out = match cmd.output() {
+            Ok(o) => o,
+            Err(e) => return Err(Violation { key: "harness|probe_spawn".into(), detail: e.to_string(), case, trace: vec![] }),
+        };
+        let text = String::from_utf8_lossy(&out.stdout).to_string();
+        if let Some(sig) = out.status.signal() {
+            let key = if sig == libc::SIGXCPU || sig == libc::SIGKILL { "hang|huge_length".to_string() } else { format!("abort|huge_length|signal {}", sig) };
+            return Err(Violation { key, detail: format!("{}: the process was ended by signal {} (60 CPU-seconds / 6 GiB limits)", label, sig), case, trace: vec![] });
+        }
+        let mut ok = None;
+        for line in text.lines() {
+            if let Some(rest) = line.strip_prefix("PROBE-FAIL ") {
+                let (k, d) = rest.split_once(" :: ").unwrap_or((rest, ""));
+                return Err(Violation { key: k.to_string(), detail: format!("{}: {}", label, d), case, trace: vec![] });
+            }
+            if let Some(rest) = line.strip_prefix("PROBE-OK ") {
+                ok = Some(rest.to_string());
+            }
+        }
+        match ok {
+            Some(s) => done.push(s),
+            None => return Err(Violation { key: format!("abort|huge_length|exit {:?}", out.status.code()), detail: format!("{}: the process ended without a result (exit {:?}) - allocation failure or abort", label, out.status.code()), case, trace: vec![] }),
+        }
+    }
+    Ok(done)
+}
